@@ -184,7 +184,7 @@ theorem mappingsFromLoadStepsSource_eq : mappingsFromLoadStepsSource =
      "    table_name = load_step.table_name",
      "    record_type_col = find_record_type_column(table_name, load_step.fields)",
      "    fields = {fieldname: fieldname for fieldname in load_step.fields if (table_name, fieldname) not in reference_fields.keys() and fieldname != record_type_col}",
-     "    if record_type_col:",
+     "    if record_type_col and (table_name, record_type_col) not in reference_fields:",
      "        fields['RecordTypeId'] = record_type_col",
      "    lookups = {fieldname: {'table': reference_fields[table_name, fieldname], 'key_field': fieldname} for fieldname in load_step.fields if (table_name, fieldname) in reference_fields.keys()}",
      "    if table_name == 'PersonContact':",
@@ -249,10 +249,13 @@ theorem insert_filter (deps : List Dep) (all : List LoadStep) (t : String) (fs :
 
 theorem recordTypeKey_eq : recordTypeKey = "RecordTypeId" := rfl
 
-theorem plainFields_recordType_key (deps : List Dep) (table : String) (fields : List String) (c : String) :
+/-- the record-type column is keyed `RecordTypeId` exactly when it holds no reference
+    (`record_type_col and (table_name, record_type_col) not in reference_fields`, fix 8e9f95d) -/
+theorem plainFields_recordType_key (deps : List Dep) (table : String) (fields : List String) (c : String)
+    (hc : isRef deps table c = false) :
     (recordTypeKey, c) ∈ plainFields deps table fields (some c) := by
   unfold plainFields
-  simp only [recordTypeKey]
+  simp only [recordTypeKey, hc, Bool.false_eq_true, if_false]
   generalize (List.map (fun f => (f, f)) (List.filter (fun f => !isRef deps table f && some f != some c) fields)) = base
   induction base with
   | nil => simp [dictInsert]
@@ -262,6 +265,20 @@ theorem plainFields_recordType_key (deps : List Dep) (table : String) (fields : 
     split
     · simp
     · simp [ih]
+
+theorem plainFields_recordType_reference (deps : List Dep) (table : String) (fields : List String)
+    (c : String) (hc : isRef deps table c = true) :
+    ∀ kv ∈ plainFields deps table fields (some c), kv.2 ≠ c := by
+  intro kv hkv
+  unfold plainFields at hkv
+  simp only [hc, if_true] at hkv
+  obtain ⟨f, hf, e⟩ := List.mem_map.mp hkv
+  subst e
+  have := (List.mem_filter.mp hf).2
+  intro hfc
+  simp only at hfc
+  subst hfc
+  simp [hc] at this
 
 theorem personContactRule_eq : personContactRule = ["PersonContact", "Contact"] := rfl
 theorem sfObjectOf_personContact : sfObjectOf "PersonContact" = "Contact" := by decide
@@ -307,7 +324,7 @@ def accessOfString : String → Option Access
 /-- … and `__setstate__` reads them by key, `state.get("intertable_dependencies", [])` (the defect
     D05 — `getattr(state, …, [])` on a dict, i.e. never — was repaired by a `fix:` commit; the model
     keeps the access kind as a parameter, so `continuation_drops_saved` and
-    `mapping_continuation_invariant_refuted` still document what the old code did). -/
+    `mapping_continuation_invariant_refuted_for_getattr` still document what the old code did). -/
 theorem deps_load_access_is_get : accessOfString depsLoadAccess = some Access.get := by decide
 
 theorem loadDeps_pinned (saved : List Dep) :
@@ -324,8 +341,8 @@ theorem mapping_continuation_invariant_pinned
       = some (mappingFromRecipe tables saved decls) := by
   rw [deps_load_access_is_get]
   simp only [Option.map_some]
-  exact congrArg some (SnowModel.Props.C16.mapping_continuation_invariant_partial .get (by decide)
-    saved observed hnd hsub tables decls).2
+  exact congrArg some
+    (SnowModel.Props.C16.mapping_continuation_invariant saved observed hnd hsub tables decls)
 
 /-! ### hidden names -/
 
